@@ -264,6 +264,9 @@ func (t *Taint) solve() {
 				switch x := in.(type) {
 				case *ssa.Return:
 					for i, r := range x.Results {
+						if t.spec.CleanAt != nil && t.spec.CleanAt(r, in) {
+							continue
+						}
 						if !t.retT[fn][i] && t.spec.Carrier(r.Type()) && t.May(r) {
 							t.retT[fn][i] = true
 							t.changed = true
@@ -317,6 +320,9 @@ func (t *Taint) solve() {
 						}
 						for i, a := range args {
 							if i < len(params) && t.carrierish(a.Type()) && t.May(a) {
+								if t.spec.CleanAt != nil && t.spec.CleanAt(a, in) {
+									continue
+								}
 								t.setPar(params[i])
 							}
 						}
